@@ -290,11 +290,13 @@ func (s *Store) startOrReuseFile() (fref *FileRef, file File, err error) {
 	defer s.m.Unlock()
 
 	if s.footer != nil {
-		slocs, _ := s.footer.segmentLocs()
+		s.footer.segmentLocs()
 		defer s.footer.DecRef()
 
-		if len(slocs) > 0 {
-			fref := slocs[0].mref.fref
+		// The segments might all belong to child collections.
+		mref := s.footer.mmapRefAny()
+		if mref != nil {
+			fref := mref.fref
 			file := fref.AddRef()
 
 			return fref, file, nil
